@@ -170,21 +170,15 @@ Definition resume_applies (a : assets) (s : session) (r : resume) : bool :=
   match waiting_run s with
   | None => false
   | Some wi =>
-      match get_run s wi with
+      (* flow asset present, and not a voice flow in a session without a call (Engine.run_flow_unusable) *)
+      negb (run_flow_unusable a s wi) &&
+      negb (Z.of_nat (count_waits s) >=? max_resumes (a_opts a))%Z &&
+      match path_location a s wi with
       | None => false
-      | Some rn =>
-          match get_flow a (r_flow rn) with
-          | None => false
-          | Some _ =>
-              negb (Z.of_nat (count_waits s) >=? max_resumes (a_opts a))%Z &&
-              match path_location a s wi with
-              | None => false
-              | Some (_, n) =>
-                  match n_router n with
-                  | Some {| rt_wait := Some w |} => accepts w r
-                  | _ => false
-                  end
-              end
+      | Some (_, n) =>
+          match n_router n with
+          | Some {| rt_wait := Some w |} => accepts w r
+          | _ => false
           end
       end
   end.
